@@ -230,8 +230,143 @@ func genVia(t *rapid.T) string {
 	return viaView
 }
 
+// Coalescing interleaved over two predicates (macro-step, a quarter of the histories). Coalesce works per
+// predicate while the pair count of a store is one number; the block makes the count return to the value it had
+// after a predicate was coalesced although that predicate has received overlapping intervals since:
+//
+//	[Coalesce(P2)]                                   (3 of 4: the other atoms of P2 have nothing left to merge)
+//	Add r1 base; Add r2 k+1 intervals                (variant A: chained, each overlapping/adjacent to the ones
+//	                                                  before; variant B: pairwise disjoint, >= 1 free ns between)
+//	Coalesce(P1)
+//	Add r1 k intervals overlapping/adjacent to what r1 holds  [variant B: Add r2 one interval bridging its k+1]
+//	Coalesce(P2)                                     (merges k pairs away [B: k+1])
+//	Coalesce(P1)
+//
+// r1, r2 are atoms of P1, P2 that no other step of the history writes to (appended to the atoms of the case),
+// so the numbers are exact wherever the block stands; all its steps go to one store. Nothing is asserted that
+// the steps Add and Coalesce do not assert anywhere else.
+const macroInterleave = "coalesce-interleaving"
+
+// chainNext draws an interval overlapping or adjacent to the hull (one connected finite interval) and
+// extending it on one side by at least one instant; it returns the interval and the new hull.
+func chainNext(t *rapid.T, hull Iv) (Iv, Iv) {
+	small := rapid.Int64Range(0, 2).Draw(t, "chainsmall")
+	if rapid.IntRange(0, 3).Draw(t, "chainleft") == 0 {
+		hi := rapid.Int64Range(hull.Lo-1, hull.Hi).Draw(t, "chainhi") // hull.Lo-1: adjacent
+		iv := Iv{Lo: hull.Lo - 1 - small, Hi: hi}
+		return iv, Iv{Lo: iv.Lo, Hi: hull.Hi}
+	}
+	lo := rapid.Int64Range(hull.Lo, hull.Hi+1).Draw(t, "chainlo") // hull.Hi+1: adjacent
+	iv := Iv{Lo: lo, Hi: hull.Hi + 1 + small}
+	return iv, Iv{Lo: hull.Lo, Hi: iv.Hi}
+}
+
+// reserveAtom appends to the case an atom of predicate p that differs (key and hash) from all its atoms.
+func reserveAtom(c *Case, p int) (int, bool) {
+	keys := map[string]bool{}
+	hashes := map[uint64]bool{}
+	for i := range c.Atoms {
+		built := c.atom(i)
+		keys[val.AtomKey(built)] = true
+		hashes[built.Hash()] = true
+	}
+	for _, v := range []val.V{val.I(7), val.I(8), val.I(9), val.N("/r"), val.S("y")} {
+		a := Atom{P: p, Args: []val.V{}}
+		for j := 0; j < c.Preds[p].Arity; j++ {
+			a.Args = append(a.Args, v)
+		}
+		probe := Case{Preds: c.Preds, Atoms: []Atom{a}}
+		built := probe.atom(0)
+		if !keys[val.AtomKey(built)] && !hashes[built.Hash()] {
+			c.Atoms = append(c.Atoms, a)
+			return len(c.Atoms) - 1, true
+		}
+		if c.Preds[p].Arity == 0 {
+			break
+		}
+	}
+	return 0, false
+}
+
+// genInterleave builds the block for store st (per-atom limit as Case.Limit); nil if the limit leaves no room.
+func genInterleave(t *rapid.T, c *Case, st, limit int) []Op {
+	k := rapid.IntRange(1, 3).Draw(t, "ilk")
+	bridge := rapid.Bool().Draw(t, "ilbridge") // variant B
+	if limit > 0 {
+		if limit < 2 {
+			return nil
+		}
+		if k > limit-1 {
+			k = limit - 1
+		}
+		if k > limit-2 {
+			bridge = false
+		}
+	}
+	order := rapid.Permutation([]int{0, 1}).Draw(t, "ilpreds")
+	var p, r [2]int // P1, P2 and their reserved atoms
+	for i := range p {
+		p[i] = order[i]
+		ai, ok := reserveAtom(c, p[i])
+		if !ok {
+			// a predicate without arguments whose only atom is in use: a predicate of its own
+			c.Preds = append(c.Preds, Pred{"r", 1})
+			p[i] = len(c.Preds) - 1
+			ai, _ = reserveAtom(c, p[i])
+		}
+		r[i] = ai
+	}
+	add := func(a int, iv Iv) Op { iv2 := iv; return Op{K: opAdd, S: st, A: a, Iv: &iv2, Macro: macroInterleave} }
+	coalesce := func(pi int) Op { return Op{K: opCoalesce, S: st, P: pi, Macro: macroInterleave} }
+	var ops []Op
+	if rapid.IntRange(0, 3).Draw(t, "ilnormalise") > 0 {
+		ops = append(ops, coalesce(p[1]))
+	}
+	// before the first coalescing of P1
+	x := rapid.Int64Range(0, 12).Draw(t, "ilbase1")
+	hull1 := Iv{Lo: x, Hi: x + rapid.Int64Range(0, 4).Draw(t, "illen1")}
+	pre := []Op{add(r[0], hull1)}
+	y := rapid.Int64Range(0, 12).Draw(t, "ilbase2")
+	first2 := Iv{Lo: y, Hi: y + rapid.Int64Range(0, 3).Draw(t, "illen2")}
+	pre = append(pre, add(r[1], first2))
+	hull2, last2 := first2, first2
+	for i := 0; i < k; i++ {
+		var iv Iv
+		if bridge {
+			lo := last2.Hi + 2 + rapid.Int64Range(0, 2).Draw(t, "ilgap")
+			iv = Iv{Lo: lo, Hi: lo + rapid.Int64Range(0, 3).Draw(t, "illen2")}
+			hull2.Hi = iv.Hi
+		} else {
+			iv, hull2 = chainNext(t, hull2)
+		}
+		last2 = iv
+		pre = append(pre, add(r[1], iv))
+	}
+	ops = append(ops, rapid.Permutation(pre).Draw(t, "ilpreorder")...)
+	ops = append(ops, coalesce(p[0]))
+	// between the two coalescings of P1
+	var post []Op
+	for i := 0; i < k; i++ {
+		var iv Iv
+		iv, hull1 = chainNext(t, hull1)
+		post = append(post, add(r[0], iv))
+	}
+	if bridge {
+		// from inside / right behind the first interval to inside / right before the last one
+		lo := rapid.Int64Range(first2.Lo, first2.Hi+1).Draw(t, "ilbridgelo")
+		hi := rapid.Int64Range(last2.Lo-1, last2.Hi).Draw(t, "ilbridgehi")
+		post = append(post, add(r[1], Iv{Lo: lo, Hi: hi}))
+	}
+	ops = append(ops, rapid.Permutation(post).Draw(t, "ilpostorder")...)
+	return append(ops, coalesce(p[1]), coalesce(p[0]))
+}
+
 func genCase(run *stats.Run, t *rapid.T) Case {
 	preds, atoms := genAtoms(run, t)
+	interleave := rapid.IntRange(0, 3).Draw(t, "interleave") == 0
+	if interleave && len(preds) == 1 {
+		preds = append(preds, Pred{"q", 1})
+	}
 	c := Case{Preds: preds, Atoms: atoms}
 	c.Limit, c.ZeroLimit = genLimit(t, "limit")
 	// Four histories of ten have a second store beside the primary one; its steps and the merges between the
@@ -333,6 +468,16 @@ func genCase(run *stats.Run, t *rapid.T) Case {
 		return op
 	})
 	c.Ops = rapid.SliceOfN(step, minOps, 44).Draw(t, "ops")
+	if interleave {
+		st, limit := pickStore(t), c.Limit
+		if st == 1 {
+			limit = c.Side.Limit
+		}
+		if block := genInterleave(t, &c, st, limit); block != nil {
+			at := rapid.IntRange(0, len(c.Ops)).Draw(t, "ilat")
+			c.Ops = append(c.Ops[:at:at], append(block, c.Ops[at:]...)...)
+		}
+	}
 	if tee {
 		c.Tee = true
 		c.Split = rapid.IntRange(0, len(c.Ops)).Draw(t, "split")
